@@ -121,6 +121,16 @@ os.makedirs(os.path.join(HERE, "family"), exist_ok=True)
 with open(os.path.join(HERE, "family", "family.manifest.json"), "w") as f:
     json.dump(manifest, f, indent=1); f.write("\n")
 
+# ---- the small manifest used by the generator-under-faults scenario (S6) ----
+small = {"packageRoot": "vscratch/small", "dependencyDataTypes": [],
+         "inputDataTypes": [t for t in types if list(t.values())[0]["name"] in ("Color", "Inner", "Meta", "Name")],
+         "resources": [resource("fam.things", [("things", ("id", prim("int64")))], ref("Inner"),
+                                [m("get", True), m("create", False), m("batch_get", False),
+                                 finder("byA", [field("a", prim("string"))], paging=True, schema=ref("Inner"), metadata=ref("Meta")),
+                                 action("poke", [field("c", ref("Color"))], ret=ref("Name"))])]}
+with open(os.path.join(HERE, "family", "small.manifest.json"), "w") as f:
+    json.dump(small, f, indent=1); f.write("\n")
+
 # ---- glue ------------------------------------------------------------------------------
 def pkgpath(ns): return ROOT + "/" + ns.replace(".", "/")
 lines = ["//go:build vscratch", "", "// Code generated by /verif/tools/mkfamily.py; DO NOT EDIT.", "", "package s4", "", "import (",
